@@ -535,7 +535,8 @@ def fam_grid(tier):
             for r in (False, True):
                 for a in (False, True):
                     n += 1
-                    if tier == "quick" and (ai + gi + 2 * r + a) % 3 != 0 and not (ai < 2 and gi < 2):
+                    plain = gi == 0 and not r and not a  # every argument list with default options, also in quick
+                    if tier == "quick" and (ai + gi + 2 * r + a) % 3 != 0 and not (ai < 2 and gi < 2) and not plain:
                         continue
                     argv = (["--respect-ignores"] if r else []) + (["--allow-hidden"] if a else []) + glob_argv(globs) + ["--"] + targets
                     if (ai * 7 + gi) % 5 == 0:
@@ -548,7 +549,9 @@ def fam_twice(tier):
     """Pinned: the same file reachable through arguments that spell it differently (known defect class)."""
     cases = []
     lists = [[".", "a.lua"], [".", "sub/t.lua"], ["sub", "./sub/t.lua"], ["./sub", "sub/t.lua"], [".", "sub"], ["sub", "./sub"],
-             [ABS + "/sub", "sub/t.lua"], [ABS, "."], ["a.lua", "./a.lua"], ["a.lua", ABS + "/a.lua"], [".", "a.lua", "./a.lua"]]
+             [ABS + "/sub", "sub/t.lua"], [ABS, "."], ["a.lua", "./a.lua"], ["a.lua", ABS + "/a.lua"], [".", "a.lua", "./a.lua"],
+             # the same file through a `dir/..` detour
+             ["a.lua", "sub/../a.lua"], ["sub/t.lua", "sub/deep/../t.lua"], ["sub", "sub/deep/../t.lua"], ["sub/deep/..", "sub"]]
     for i, targets in enumerate(lists):
         for check in (True, False):
             cases.append(mk_case("twice", f"twice:{i}:{'check' if check else 'write'}", T0, (["--check"] if check else []) + targets))
